@@ -3,9 +3,13 @@
    request produces output (one 10-byte error or one 25-byte SYN+ACK). Pending: only the timer produces output,
    one stored 25-byte SYN+ACK per expiry with a budget of HANDSHAKE_RESEND_COUNT. A connection request is exactly
    MAX_FRAME_SIZE = 1472 bytes. Hence bytes sent <= 25 * 11 = 275 < 1472 <= bytes received per accepted request
-   and 10 < 1472 per refused one. The theorems below are the four facts; the summation over a whole history is
-   checked on the implementation by the per-address byte-count oracle. *)
-From UF Require Import Consts Base Frame Codec Heap HalfConn Endpoint EndpointProofs.
+   and 10 < 1472 per refused one. The theorems below are the four facts, and C18_no_amplification is the
+   summation over whole histories (ServerBytes.v): for EVERY history of server steps (any datagrams from any
+   addresses, any clock values), flushes and application calls, and every address A that has not completed a
+   handshake in it, 1472 * (bytes sent to A) <= 275 * (bytes received from A). The invariant is a potential:
+   bytes sent to A + 25 * (retransmissions the timer heap still holds for A's pending entry), carried through
+   the binary heap's sift operations by HeapCount.v. *)
+From UF Require Import Consts Base Frame Codec Heap HalfConn Endpoint EndpointProofs EndpointTotal ServerBytes.
 
 Theorem C18_request_is_full_size :
   forall bs v n a b c, read_frame bs = Ok (Some (FSyn v n a b c)) -> len bs = MAX_FRAME_SIZE.
@@ -45,4 +49,28 @@ Theorem C18_pending_resend_budget :
        fst r = sv_remove_addr (sv_set_obj s (rq_uid ev) SvFin) (so_addr (sv_obj_get s (rq_uid ev)))).
 Proof. exact pending_resend_budget. Qed.
 
+(* whole histories *)
+Theorem C18_no_amplification :
+  forall (A : N) cfg t0 seed (ops : list sv_op),
+    let '(_, E, Ou) := fold_left (sv_run_op) ops (server_new cfg t0 seed, [], []) in
+    ~ In (EvConnect A) E -> 1472 * outb A Ou <= 275 * received_total A ops.
+Proof. exact no_amplification. Qed.
+Print Assumptions C18_no_amplification.
+
+(* non-vacuity: a spoofed address sends one request and then nothing; the server answers, retransmits ten times
+   2 s apart, gives up — 275 bytes out for 1472 in, no Connect, the bound holds with room to spare; a second address
+   sending garbage gets nothing *)
+Example C18_history_example :
+  let cfg := mkSvConfig 4 2 true (mkEpConfig 100000 100000 1000 10000 false 1000 20000) in
+  let syn := write_handshake_syn PROTOCOL_VERSION 77 100000 1000 10000 in
+  let ops := SvStep 0 [(5, syn); (6, [1; 2; 3])] [99]
+             :: map (fun k => SvStep (2000 * k) [] []) [1; 2; 3; 4; 5; 6; 7; 8; 9; 10; 11; 12] in
+  let '(_, E, Ou) := fold_left sv_run_op ops (server_new cfg 0 1, [], []) in
+  E = [EvError 5 0] /\ outb 5 Ou = 275 /\ received_total 5 ops = 1472 /\ outb 6 Ou = 0 /\ received_total 6 ops = 3.
+Proof. vm_compute. repeat split. Qed.
+
+Check C18_no_amplification :
+  forall (A : N) cfg t0 seed (ops : list sv_op),
+    let '(_, E, Ou) := fold_left (sv_run_op) ops (server_new cfg t0 seed, [], []) in
+    ~ In (EvConnect A) E -> 1472 * outb A Ou <= 275 * received_total A ops.
 Check C18_request_is_full_size.
